@@ -26,6 +26,7 @@ var c14contents = map[string][]byte{
 	"A'": append(append([]byte(nil), pattern("pos", 64, c14L)...), []byte("different tail")...), // shares A's first leaf
 	"C":  []byte("small"),
 	"B":  pattern("pos", 12*c14L, c14L), // 12 leaves, the first shared with A (C13 only: an index of more than 10 chunks)
+	"D":  []byte("held by a bundle of the extra context only"), // C13 only
 }
 
 type c14step struct {
